@@ -1,6 +1,7 @@
 import SlipVerif.Lemmas.LoadForm
 import SlipVerif.Lemmas.SnapshotOrder
 import SlipVerif.Lemmas.Instances
+import SlipVerif.Lemmas.SnapForms
 /-
   C19 — property theorems about SlipVerif.Model.LoadForm (the model the correspondence harness
   runs against the implementation: harness/cmd/vh/c19.go).
@@ -245,3 +246,92 @@ theorem inherits_comparator_not_weak_order :
   exact absurd this (by decide)
 
 end SlipVerif.LoadForm
+
+
+/-! ## the evaluation order of a snapshot: sections, and the two passes of `load` -/
+
+namespace SlipVerif.SnapForms
+open SlipVerif.LoadForm (Node World snapshotOrder topo_order_sound)
+
+/-- The model's tables (the section order of AppendSnapshot, the operators Code.Compile evaluates in
+    its first pass, the kinds of definition a form may need) satisfy the soundness conditions:
+    needed kinds are written in the same or an earlier section, hoisted kinds need hoisted kinds
+    only.  (Theorems/GenC19.lean: the same for the tables regenerated from the Go code.) -/
+theorem model_tables_ok : tablesOk sectionOrder hoistedHeads = true := by decide +kernel
+
+/-- **Every form is evaluated after the definitions it needs.**  For every snapshot text `fs` whose
+    sections are written in the order `order`, without a forward need inside a section, whose forms
+    need only kinds the table allows and only definitions that are in the snapshot: `load` — which
+    evaluates the hoisted operators `hs` first — finds every need defined (no `class not found`,
+    `flavor not defined`, `package does not exist`), for any tables that satisfy `tablesOk`. -/
+theorem snapshot_load_sound (order hs : List String) (fs : List Form)
+    (ht : tablesOk order hs = true)
+    (hsec : fs.Pairwise (fun a b => secIdx order a.head ≤ secIdx order b.head))
+    (hin : fs.Pairwise (fun a b => secIdx order a.head = secIdx order b.head → b.defines ∉ a.needs))
+    (hk : ∀ f ∈ fs, ∀ n ∈ f.needs, n.1 ∈ f.head.kindNeeds)
+    (hself : ∀ f ∈ fs, f.defines ∉ f.needs)
+    (hdef : ∀ f ∈ fs, ∀ n ∈ f.needs, ∃ g ∈ fs, g.defines = n) :
+    loadForms (loadOrder hs fs) [] = .ok () := by
+  have hno := noFwd_of_sections order hs fs ht hsec hin hk
+  have hno' := noFwd_loadOrder hs fs hno (fun f hf hh n hn => (tablesOk_spec ht f.head n.1 (hk f hf n hn)).2 hh)
+  apply loadForms_ok_of_noFwd _ _ hno'
+  · intro f hf
+    exact hself f ((mem_loadOrder hs fs f).mp hf)
+  · intro f hf n hn
+    obtain ⟨g, hg, hgn⟩ := hdef f ((mem_loadOrder hs fs f).mp hf) n hn
+    exact Or.inr ⟨g, (mem_loadOrder hs fs g).mpr hg, hgn⟩
+
+/-- a session: package p2 uses p1, flavor b inherits a with a method, class k, a variable holding an
+    instance of b, a generic function with a method on k, a function — in the order of the text -/
+def sampleText : List Form :=
+  [⟨.defpackage, "p1", []⟩, ⟨.defpackage, "p2", [(.defpackage, "p1")]⟩, ⟨.defconstant, "c", []⟩,
+   ⟨.defflavor, "a", []⟩, ⟨.defflavor, "b", [(.defflavor, "a")]⟩, ⟨.flavorMethod, "b :m", [(.defflavor, "b")]⟩,
+   ⟨.defclass, "k", []⟩, ⟨.defvar, "v", []⟩, ⟨.setq, "v", [(.defvar, "v"), (.defflavor, "b")]⟩,
+   ⟨.usePackage, "p2", [(.defpackage, "p2")]⟩, ⟨.defun, "f", []⟩, ⟨.defgeneric, "g", [(.defclass, "k")]⟩]
+example : sampleText.Pairwise (fun a b => secIdx sectionOrder a.head ≤ secIdx sectionOrder b.head) := by decide +kernel
+example : sampleText.Pairwise (fun a b => secIdx sectionOrder a.head = secIdx sectionOrder b.head → b.defines ∉ a.needs) := by
+  decide +kernel
+example : ∀ f ∈ sampleText, ∀ n ∈ f.needs, n.1 ∈ f.head.kindNeeds := by decide +kernel
+example : (loadOrder hoistedHeads sampleText).map (·.name) =
+    ["c", "v", "f", "p1", "p2", "a", "b", "b :m", "k", "v", "p2", "g"] := by decide +kernel
+example : loadForms (loadOrder hoistedHeads sampleText) [] = .ok () := by decide +kernel
+
+/-- the forms of one section (flavors, classes or packages) written from the definitions of a world
+    in the snapshot's order; a definition needs everything it inherits -/
+def nodeForms (h : Head) (ns : List Node) : List Form :=
+  (snapshotOrder ns).map fun n => ⟨h, n.name, n.inherits.map fun i => (h, i)⟩
+
+/-- **Inside a section** written by (number of inherited definitions, name) there is no forward need,
+    for every world — the hypothesis `hin` of `snapshot_load_sound` for the flavor and package
+    sections (and for the class section, should defclass ever need its superclasses). -/
+theorem nodeForms_noFwd (h : Head) (ns : List Node) (w : World ns) : NoFwd (nodeForms h ns) := by
+  unfold NoFwd nodeForms
+  rw [List.pairwise_map]
+  refine (topo_order_sound ns w).imp ?_
+  intro x y hxy hmem
+  simp only [Form.defines, List.mem_map, Prod.mk.injEq, true_and] at hmem
+  obtain ⟨i, hi, rfl⟩ := hmem
+  exact hxy hi
+
+/-- **Why a constant cannot hold an instance.**  Wherever the snapshot writes the defconstant form —
+    here after the defflavor — `load` evaluates it in its first pass, before the flavor exists:
+    the first form that fails is the defconstant. -/
+theorem constant_instance_not_loadable :
+    loadForms (loadOrder hoistedHeads
+      [⟨.defflavor, "a", []⟩, ⟨.defconstant, "c", [(.defflavor, "a")]⟩]) []
+      = .error ⟨.defconstant, "c", [(.defflavor, "a")]⟩ := by decide +kernel
+
+/-- … while the same value in a variable loads: the value is set by a setq, evaluated in text order -/
+theorem variable_instance_loadable :
+    loadForms (loadOrder hoistedHeads
+      [⟨.defflavor, "a", []⟩, ⟨.defvar, "v", []⟩, ⟨.setq, "v", [(.defvar, "v"), (.defflavor, "a")]⟩]) [] = .ok () := by
+  decide +kernel
+
+/-- a section order that writes the variables before the flavors is rejected by the table condition -/
+example : tablesOk ["require", "defpackage", "defconstant", "defvar", "defflavor", "defclass", "defun"] hoistedHeads = false := by
+  decide +kernel
+/-- … and so is a first pass that also evaluates setq: the flavors, classes and packages its value
+    may need are not evaluated in the first pass -/
+example : tablesOk sectionOrder ("setq" :: hoistedHeads) = false := by decide +kernel
+
+end SlipVerif.SnapForms
